@@ -138,7 +138,7 @@ def _prepare(d, targets, exists):
 
 # ---- writer functions ------------------------------------------------------------------------------
 
-WRITERS = ["tum", "kitti", "res", "table", "plot_pdf", "plot_png", "serialize"]
+WRITERS = ["tum", "kitti", "res", "res_nosuffix", "table", "plot_pdf", "plot_png", "plot_pdf_split", "serialize"]
 
 
 def run_writer(case):
@@ -147,14 +147,19 @@ def run_writer(case):
     d = tempfile.mkdtemp(prefix="c17_", dir=os.getcwd())
     w = case["writer"]
     ptype = case["ptype"]
-    name = {"tum": "out.tum", "kitti": "out.kitti", "res": "out.zip", "table": "table.csv", "plot_pdf": "plots.pdf", "plot_png": "plots.png",
-            "serialize": "plots.pickle"}[w]
+    name = {"tum": "out.tum", "kitti": "out.kitti", "res": "out.zip", "res_nosuffix": "results", "table": "table.csv", "plot_pdf": "plots.pdf",
+            "plot_png": "plots.png", "plot_pdf_split": "plots.pdf", "serialize": "plots.pickle"}[w]
     path = os.path.join(d, name)
     targets = [path]
-    kinds = [{"tum": "tum", "kitti": "kitti", "res": "zip", "table": "csv", "plot_pdf": "pdf", "serialize": "pickle", "plot_png": "png"}[w]]
+    kinds = [{"tum": "tum", "kitti": "kitti", "res": "zip", "res_nosuffix": "zip", "table": "csv", "plot_pdf": "pdf", "serialize": "pickle", "plot_png": "png",
+              "plot_pdf_split": "pdf"}[w]]
     if w == "plot_png":
         targets = [os.path.join(d, "plots_raw.png"), os.path.join(d, "plots_map.png")]
         kinds = ["png", "png"]
+    if w == "plot_pdf_split":
+        # plot_split: one PDF per figure
+        targets = [os.path.join(d, "plots_raw.pdf"), os.path.join(d, "plots_map.pdf")]
+        kinds = ["pdf", "pdf"]
     case["_pre"] = _prepare(d, targets, case["exists"])
     before = set(os.listdir(d))
     arg = pathlib.Path(path) if ptype == "pathlib" else path
@@ -169,12 +174,15 @@ def run_writer(case):
                 file_interface.write_tum_trajectory_file(arg, _traj(True), confirm_overwrite=case["confirm"])
             elif w == "kitti":
                 file_interface.write_kitti_poses_file(arg, _traj(False), confirm_overwrite=case["confirm"])
-            elif w == "res":
+            elif w in ("res", "res_nosuffix"):
                 file_interface.save_res_file(arg, _result(), confirm_overwrite=case["confirm"])
             elif w == "table":
                 import pandas as pd
                 pandas_bridge.save_df_as_table(pd.DataFrame({"a": [1.0, 2.0]}, index=["x", "y"]), arg, confirm_overwrite=case["confirm"])
-            elif w in ("plot_pdf", "plot_png"):
+            elif w in ("plot_pdf", "plot_png", "plot_pdf_split"):
+                if w == "plot_pdf_split":
+                    from evo.tools.settings import SETTINGS
+                    SETTINGS.plot_split = True
                 pc = _plot_collection()
                 pc.export(str(arg), confirm_overwrite=case["confirm"])
                 pc.close()
@@ -196,6 +204,8 @@ CLI_SITES = [
     ("traj", "save_as_tum"), ("traj", "save_as_tum_ref"), ("traj", "save_as_kitti"), ("traj", "save_as_kitti_ref"), ("traj", "save_table"),
     ("traj", "save_plot_pdf"), ("traj", "serialize_plot"),
     ("res", "save_table"), ("res", "save_plot_pdf"), ("res", "serialize_plot"), ("res", "save_table_titles"),
+    ("res", "save_table_ignore_title"), ("res", "save_plot_pdf_ignore_title"),
+    ("ape", "save_plot_pdf_split"), ("ape", "save_results_nosuffix"),
     ("traj", "save_as_tum_same_stem"),
     ("config", "generate"),
 ]
@@ -223,6 +233,12 @@ def run_cli_site(case):
         argv = ["tum", os.path.join(ind, "reference.txt"), os.path.join(ind, "traj_a.txt"), "--silent"] + nw
         if site == "save_results":
             argv += ["--save_results", tgt("out.zip", "zip")]
+        elif site == "save_results_nosuffix":
+            argv += ["--save_results", tgt("results", "zip")]
+        elif site == "save_plot_pdf_split":
+            tgt("plots_raw.pdf", "pdf")
+            tgt("plots_map.pdf", "pdf")
+            argv += ["--save_plot", os.path.join(d, "plots.pdf"), "-c", cli.write_json(os.path.join(ind, "cfg.json"), {"plot_split": True})]
         elif site == "save_plot_pdf":
             argv += ["--save_plot", tgt("plots.pdf", "pdf")]
         elif site == "save_plot_png":
@@ -268,9 +284,11 @@ def run_cli_site(case):
             file_interface.save_res_file(p, r)
             files.append(p)
         argv = files + ["--silent"] + nw
-        if site in ("save_table", "save_table_titles"):
+        if site.endswith("_ignore_title"):
+            argv.append("--ignore_title")
+        if site in ("save_table", "save_table_titles", "save_table_ignore_title"):
             argv += ["--save_table", tgt("table.csv", "csv")]
-        elif site == "save_plot_pdf":
+        elif site in ("save_plot_pdf", "save_plot_pdf_ignore_title"):
             argv += ["--save_plot", tgt("plots.pdf", "pdf")]
         elif site == "serialize_plot":
             argv += ["--serialize_plot", tgt("plots.pickle", "pickle")]
@@ -355,18 +373,18 @@ def combos(tier):
     out = []
     for w in WRITERS:
         for exists in ("none", "first", "last", "all"):
-            if exists == "last" and w != "plot_png":
+            if exists == "last" and w not in ("plot_png", "plot_pdf_split"):
                 continue
             for confirm in (True, False):
                 for ans in ANSWERS:
                     for ptype in ("str", "pathlib"):
-                        if ptype == "pathlib" and w in ("plot_pdf", "plot_png", "serialize", "table"):
+                        if ptype == "pathlib" and w in ("plot_pdf", "plot_png", "plot_pdf_split", "serialize", "table"):
                             continue
                         if (not confirm or exists == "none") and ans not in ("y", "n"):
                             continue
                         out.append({"writer": w, "exists": exists, "confirm": confirm, "answer": ans, "ptype": ptype})
     for site in CLI_SITES:
-        multi = site[1].endswith("_ref") or site[1] == "save_plot_png"
+        multi = site[1].endswith("_ref") or site[1] in ("save_plot_png", "save_plot_pdf_split")
         for exists in ("none", "first", "last", "all"):
             if exists == "last" and not multi:
                 continue
